@@ -26,6 +26,7 @@ CFGS = [
     {"config": ["gen/"], "option": ["*.min.js"], "gitignore": "out\n"},
     {"config": ["a/b"], "option": ["a/*"], "gitignore": "tmp/\n# comment\n\nlib\n"},
     {"config": ["lib", "src/"], "option": [], "gitignore": "*.py\n"},
+    {"config": ["/lib"], "option": ["/b"], "gitignore": "/out\n"},
 ]
 ROOTS = [("/w", "/w"), (".", "/w"), ("..", "/w/src"), ("w", "/"), ("/w/src/..", "/x"), ("../w", "/x")]     # (root argument, cwd)
 CFG = CFGS[param("cfg", 0)]
@@ -36,6 +37,8 @@ _real_spec = untraced(scn.generate_exclude_spec)
 
 
 def classify(s):
+    if s.startswith("/"):
+        return "rooted"
     if s.endswith("/*"):
         return "star"
     if s.endswith("/"):
@@ -59,6 +62,8 @@ def ref_regex(s):
         return rf"(?:.+/)?[^/]*{e(s[1:])}(?:/.*)?"
     if k == "anchored":
         return rf"{e(s)}(?:/.*)?"
+    if k == "rooted":            # leading slash: only at the root
+        return rf"{e(s[1:])}(?:/.*)?"
     return rf"{e(s[:-1])}[^/]+(?:/.*)?"
 
 
@@ -347,3 +352,73 @@ def h_walk_order(d1: int, d2: int, f3: int, rev: bool, rot: bool) -> bool:
     base = _scan_sig(a, b, c, False, False)
     other = _scan_sig(a, b, c, True if rev else False, True if rot else False)
     return fin(base == other, rev)
+
+
+# ----------------------------------------------------------------------------------------------- C11: the exclusion SOURCES are combined (command line + .codelimit.yml + .gitignore)
+OPTS = [None, ["gen/"], ["*.min.js", "tmp"]]
+YMLS = [None, "exclude:\n  - out\n", "verbose: false\n", "exclude: [a/b, lib]\n"]
+GITS = [None, "venv2\n"]
+SRC_TREE = ["src/main.py", "gen/m.py", "k/x.min.js", "tmp/m.py", "out/m.py", "a/b/m.py", "a/c.py", "lib/m.py", "venv2/m.py", "tests/t.py"]
+
+
+@untraced
+def _cli(oi, yi, gi, which):
+    import codelimit.__main__ as cm
+    import codelimit.common.Configuration as cfgmod
+    files = {"/w/" + p: p for p in SRC_TREE}
+    if YMLS[yi] is not None:
+        files["/w/.codelimit.yml"] = YMLS[yi]
+    if GITS[gi] is not None:
+        files["/w/.gitignore"] = GITS[gi]
+    fs = fsstub.FakeFS(files, cwd="/w", dirs={"/x"})
+    analysed, checked = [], []
+    FP, con, restore = _install(fs, analysed, checked)
+    got = {}
+    saved = {}
+    for mod, name, val in ((cm, "scan_command", lambda path: got.update(files=sorted(scn.scan_path(path).files.keys()))), (cm, "setup_logging", lambda: None), (cm, "configure_github_repository", lambda p: None),
+                           (cm, "check_command", lambda paths, quiet: got.update(files=sorted(scn.scan_path(FP("/w")).files.keys()))), (cm, "Path", FP), (cfgmod, "open", fs.open)):
+        saved[(mod, name)] = mod.__dict__.get(name)
+        setattr(mod, name, val)
+    Configuration.exclude[:] = []
+    old_verbose = Configuration.verbose
+    try:
+        if which == "scan":
+            cm.scan(FP("/w"), exclude=OPTS[oi], verbose=False)
+        else:
+            cm.check([FP("/w")], exclude=OPTS[oi], quiet=True, verbose=False)
+        builtin = list(scn.DEFAULT_EXCLUDES)
+    finally:
+        Configuration.verbose = old_verbose
+        for (mod, name), val in saved.items():
+            if val is None:
+                del mod.__dict__[name]
+            else:
+                setattr(mod, name, val)
+        restore()
+        Configuration.exclude[:] = []
+    import yaml
+    pats = list(builtin) + list(OPTS[oi] or [])
+    if YMLS[yi] is not None:
+        pats += list((yaml.safe_load(YMLS[yi]) or {}).get("exclude", []))
+    if GITS[gi] is not None:
+        pats += [ln for ln in GITS[gi].splitlines() if ln]
+    exp = sorted(p for p in SRC_TREE if language_of(p.rsplit("/", 1)[-1]) and not hidden(p) and not any(re.fullmatch(ref_regex(x), p) for x in pats))
+    if got.get("files") != exp:
+        extra = sorted(set(got.get("files") or []) - set(exp))
+        return [f"exclusion-source-lost:analysed {extra}" if extra else f"selection-differs: got {got.get('files')} expected {exp}"]
+    return []
+
+
+def h_cli_sources(oi: int, yi: int, gi: int, as_check: bool) -> bool:
+    """
+    pre: 0 <= oi < len(OPTS) and 0 <= yi < len(YMLS) and 0 <= gi < len(GITS)
+    post: _
+    """
+    bad = _cli(_pick(oi, len(OPTS)), _pick(yi, len(YMLS)), _pick(gi, len(GITS)), "check" if as_check else "scan")
+    return fin(bad == [], oi == 1 and yi == 1)
+
+
+def real_h_cli_sources(oi, yi, gi, as_check):
+    f = _cli.__wrapped__ if hasattr(_cli, "__wrapped__") else _cli
+    bad = f(oi, yi, gi, "check" if as_check else "scan")
+    return {"reproduced": bool(bad), "sig": "exclusion-sources:" + "+".join(sorted({b.split(":")[0] for b in bad})), "detail": f"--exclude {OPTS[oi]} .codelimit.yml {YMLS[yi]!r} .gitignore {GITS[gi]!r} via {'check' if as_check else 'scan'}: {bad}"}
